@@ -41,8 +41,15 @@ def scenarios(rnd, quick, judge, multi=False, factory=None):
 
 
 def run_family(ctx, scens, budget_per, name, sig=None):
-    h = poolsim.Harness()
     rnd = random.Random(ctx.seed * 7919 + 1)
+    try:
+        h = poolsim.Harness()
+    except Exception as e:
+        # the code uses something the shims do not offer: coverage degrades to the real-process leg, no alarm is raised for that
+        ctx.note("controlled execution not possible (%s: %s); only the real-process leg runs" % (type(e).__name__, str(e)[:200]))
+        ctx.extra["controlled_legs"] = "not-run"
+        poolsim.real_leg(ctx, scens[0]["judge"], name, ctx.tier == "quick", rnd)
+        return 0
     shared = set()
     for s in scens[:6]:
         shared |= h.learn(s, rnd)
@@ -74,10 +81,14 @@ def run(ctx):
                 "bounded depth-first search and sampled with random and PCT walks; every execution's observer events are validated by "
                 "TLC against PoolObs.tla with the results clause enforced. distinct = distinct (scenario, schedule) executions")
     # design level: exhaustive TLC runs of FunctorPool.tla and conformance of the real code with it
-    hconf = poolsim.Harness()
+    try:
+        hconf = poolsim.Harness()
+    except Exception:
+        hconf = None              # see run_family: controlled legs degrade, the exhaustive runs of the model still happen
     crnd = random.Random(ctx.seed * 7919 + 55)
     configs = [('C2', 1, 1, 0), ('C3', 2, 2, 0), ('C2u', 2, 2, 0)] if quick else [('C2', 1, 1, 0), ('C3', 2, 2, 0), ('C3', 2, 2, 1), ('C2u', 2, 2, 0), ('C3', 3, 3, 0), ('C0', 2, 2, 0)]
-    hconf.shared = hconf.learn(poolconf.scen_for("C2", 1, 1, 0, JUDGE), crnd)
+    if hconf is not None:
+        hconf.shared = hconf.learn(poolconf.scen_for("C2", 1, 1, 0, JUDGE), crnd)
     poolconf.design_legs(ctx, configs, ['CallOK', 'NoBad', 'NoLeftovers'], False, ['CallOK'], hconf, crnd, 30 if quick else 300, 30 if quick else 300, JUDGE)
     rnd = random.Random(ctx.seed * 7919 + 101)
     scens = scenarios(rnd, quick, JUDGE)
